@@ -574,6 +574,58 @@ def rule_sign(repo: Repo, rep: Report) -> int:
     return n
 
 
+RAW_BIT_VIEWS = {"reshape", "view", "clone", "contiguous", "flatten", "unsqueeze", "squeeze", "flip", "roll"}
+FLOAT_CASTS = {"float", "double", "to", "type", "half"}
+
+
+def rule_bit_dtype(repo: Repo, rep: Report) -> int:
+    """A bit tensor may arrive in an integer dtype (uint8 from unpackbits): `1 - 2 * bits` written with integer literals
+    is computed in that dtype, and in uint8 `1 - 2` wraps to 255, so every 1 bit gets a large positive amplitude.  In the
+    modulators' forward every subtraction whose operands are only integer literals and (views of) the raw input is
+    reported; a float literal, a float cast of the bits, or a prior `x = x.float()` promotes the arithmetic."""
+    n = 0
+    mods = [(f"{MD}/psk.py", "BPSKModulator"), (f"{MD}/psk.py", "QPSKModulator"), (f"{MD}/psk.py", "PSKModulator"), (f"{MD}/qam.py", "QAMModulator"), (f"{MD}/pam.py", "PAMModulator"), (f"{MD}/dpsk.py", "DPSKModulator"), (f"{MD}/oqpsk.py", "OQPSKModulator"), (f"{MD}/pi4qpsk.py", "Pi4QPSKModulator")]
+    for file, cname in mods:
+        fi = repo.method(repo.cls(file, cname), "forward")
+        raw = {"x"}
+        cast = False
+        for st in stmts_of(fi.body):
+            if isinstance(st, ast.Assign) and len(st.targets) == 1 and isinstance(st.targets[0], ast.Name):
+                v = st.value
+                if st.targets[0].id == "x" and any(isinstance(c, ast.Call) and isinstance(c.func, ast.Attribute) and c.func.attr in FLOAT_CASTS for c in ast.walk(v)):
+                    cast = True
+                while (isinstance(v, ast.Call) and isinstance(v.func, ast.Attribute) and v.func.attr in RAW_BIT_VIEWS) or isinstance(v, ast.Subscript):
+                    v = v.func.value if isinstance(v, ast.Call) else v.value
+                if isinstance(v, ast.Name) and v.id in raw:
+                    raw.add(st.targets[0].id)
+
+        def kind(e):
+            """'int' literal, 'raw' bits, 'mix' (ints and raw bits only), or None (something else: promotes or unknown)"""
+            if isinstance(e, ast.Constant) and isinstance(e.value, int) and not isinstance(e.value, bool):
+                return "int"
+            v = e
+            while (isinstance(v, ast.Call) and isinstance(v.func, ast.Attribute) and v.func.attr in RAW_BIT_VIEWS) or isinstance(v, ast.Subscript):
+                v = v.func.value if isinstance(v, ast.Call) else v.value
+            if isinstance(v, ast.Name) and v.id in raw:
+                return "raw"
+            if isinstance(e, ast.BinOp) and isinstance(e.op, (ast.Add, ast.Sub, ast.Mult)):
+                a, b = kind(e.left), kind(e.right)
+                if a is None or b is None:
+                    return None
+                return "int" if a == b == "int" else "mix"
+            return None
+
+        sites = [e for e in ast.walk(fi.node) if isinstance(e, ast.BinOp) and isinstance(e.op, ast.Sub) and kind(e) == "mix"]
+        set_parents(fi.node)
+        sites = [e for e in sites if not (isinstance(getattr(e, "_parent", None), ast.BinOp) and kind(e._parent) == "mix" and isinstance(e._parent.op, ast.Sub))]
+        n += 1
+        if sites and not cast:
+            rep.violation("BIT-DTYPE", fi, f"{cname}: {unparse(sites[0])}", "the bipolar map is computed in the dtype of the bit tensor: for uint8 bits `1 - 2` wraps to 255, the 1 bit gets a positive amplitude and the sign-based hard decision returns 0 for every transmitted 1 (write the literals as floats or cast the bits)", node=sites[0])
+        else:
+            rep.ok("BIT-DTYPE", fi, f"{cname}.forward: no integer-only subtraction on the raw bit tensor", "amplitude arithmetic is promoted to float before it can wrap", nontrivial=False)
+    return n
+
+
 def _hard_body(dem: FuncInfo):
     return configured(dem.body, lambda t: True if unparse(t) == "noise_var is None" else (False if unparse(t) == "noise_var is not None" else None))
 
@@ -607,12 +659,19 @@ def sign_rail(rep: Report, mod: FuncInfo, dem: FuncInfo, amp_name: str, dec_name
     if len(a) != 1 or len(d) != 1:
         rep.undecided("SIGN", mod, what, f"{len(a)} amplitude / {len(d)} decision statements named {amp_name}/{dec_name}")
         return 1
-    bits_name = [x.id for x in ast.walk(a[0].value) if isinstance(x, ast.Name)]
+    # local single assignments are followed back to the bit tensor; `x_reshaped` (..., N, 2) is modelled by its two rails
+    single: Dict[str, List[ast.AST]] = {}
+    for s_ in ast.walk(mod.node):
+        if isinstance(s_, ast.Assign) and len(s_.targets) == 1 and isinstance(s_.targets[0], ast.Name):
+            single.setdefault(s_.targets[0].id, []).append(s_.value)
+    local = {k: v[0] for k, v in single.items() if len(v) == 1 and k not in ("x_reshaped", "x")}
     src = [x.id for x in ast.walk(d[0].value) if isinstance(x, ast.Name) and x.id.startswith("y_")]
     try:
         out = {}
         for b in (0, 1):
-            amp = Folder({bn: b for bn in bits_name}, {"self._normalization": norm}).fold(a[0].value)
+            names = dict(local)
+            names.update({"x_reshaped": [b, b], "x": b})
+            amp = Folder(names, {"self._normalization": norm}).fold(a[0].value)
             out[b] = Folder({s_: amp for s_ in src}).fold(d[0].value)
     except Unfoldable as exc:
         rep.undecided("SIGN", mod, what, f"not evaluable with literal arithmetic ({exc})")
@@ -1137,6 +1196,7 @@ def run(repo: Repo, rep: Report, tier: str) -> None:
     rep.floor("registered demodulators", len(dems), 11)
     n = rule_label(repo, rep)
     n += rule_sign(repo, rep)
+    n += rule_bit_dtype(repo, rep)
     n += rule_count(repo, rep)
     n += rule_memory(repo, rep)
     n += rule_output(repo, rep)
